@@ -23,6 +23,7 @@ class SdoServer(SdoBase):
         SdoBase.__init__(self, rx_cobid, tx_cobid, node.object_dictionary)
         self._node = node
         self._buffer = None
+        self._downloading = False
         self._toggle = 0
         self._index = 0
         self._subindex = 0
@@ -61,6 +62,7 @@ class SdoServer(SdoBase):
         _, index, subindex = SDO_STRUCT.unpack_from(request)
         self._index = index
         self._subindex = subindex
+        self._downloading = False
         res_command = RESPONSE_UPLOAD | SIZE_SPECIFIED
         response = bytearray(8)
 
@@ -115,6 +117,7 @@ class SdoServer(SdoBase):
 
     def request_aborted(self, data):
         _, index, subindex, code = struct.unpack_from("<BHBL", data)
+        self._downloading = False
         self.last_received_error = code
         logger.info("Received request aborted for 0x%04X:%02X with code 0x%X", index, subindex, code)
 
@@ -131,6 +134,7 @@ class SdoServer(SdoBase):
         command, index, subindex = SDO_STRUCT.unpack_from(request)
         self._index = index
         self._subindex = subindex
+        self._downloading = False
         res_command = RESPONSE_DOWNLOAD
         response = bytearray(8)
 
@@ -148,11 +152,15 @@ class SdoServer(SdoBase):
                 logger.info("Size is %d bytes", size)
             self._buffer = bytearray()
             self._toggle = 0
+            self._downloading = True
 
         SDO_STRUCT.pack_into(response, 0, res_command, index, subindex)
         self.send_response(response)
 
     def segmented_download(self, command, request):
+        if not self._downloading:
+            # No segmented download has been initiated (or it is already finished)
+            raise SdoAbortedError(0x05040001)
         if command & TOGGLE_BIT != self._toggle:
             # Toggle bit mismatch
             raise SdoAbortedError(0x05030000)
@@ -160,6 +168,7 @@ class SdoServer(SdoBase):
         self._buffer.extend(request[1:last_byte])
 
         if command & NO_MORE_DATA:
+            self._downloading = False
             self._node.set_data(self._index,
                                 self._subindex,
                                 self._buffer,
